@@ -38,6 +38,7 @@ RULE = ("graphs over every node kind (pvf/zoo.py: grammar programs with named "
         "checks ==/hash there; the pickle stream must not carry a cached hash."
         "  non-trivial = the mutated node lies below the root, or the pair "
         "crosses a process; distinct by (program, node, field)")
+RULE += '  Round-4 addition: for every program with data wrappers, a second wrapper around the very same buffer (and the graph rebuilt over such twins): whatever == answers, !=, hash, set and dict membership must agree with it.'
 ASSUMPTIONS = [
     "DataWrapper equality is identity by documentation; pickling therefore "
     "uses the program with data wrappers turned into placeholders",
